@@ -1156,6 +1156,8 @@ impl Prop for C18Positions {
         // the same generator is first asked about the same placement with the OTHER side to move
         // (where that is a consistent position): the answers below must not depend on it
         {
+            // (as move annotation does) is the side NOT to move in check?
+            let _ = evaluate::player_is_in_check(&b, &mut g, to_color(pos.side.other()));
             let mut flipped = pos.clone();
             flipped.side = pos.side.other();
             flipped.ep = None;
